@@ -19,6 +19,7 @@ EXPLANATION = (
     "writes neither file nor current PIN; the generator returns only values accepted by the full "
     "policy (8 chars from letters+digits, one letter; equal to firmware MAX_PIN_LENGTH); after a "
     "change attempt every exit of bring-up is HSM2ProtocolInterrupt; typestate 'no drop after ack' "
+    "the PIN object's state machine (changing / needs-change) as one decision table per method, __init__ loading the file's PIN or the default; is_valid accepts everything the policy allows; "
     "and 'atomic durable write' with crash points modelled as exception edges. Does not decide "
     "real crash timing or file-system behaviour."
 )
